@@ -588,7 +588,7 @@ theorem outPush_nil (val : Cps) : outPush [] val = [val] := by
 
 /-- `Out.append` then `Out.value` on an empty `Out` return a plain text item as it is, when the text has a
 character that is no punctuation, the type is not one of the specially treated ones and the spacer is blank -/
-theorem outValue_outAppend_text (p : Prefs) (hsp : isBlank p.spacer = true) (t : Cps) (ty : ItemType)
+theorem outValue_outAppend_text (p : Prefs) (hsp : isCssBlank p.spacer = true) (t : Cps) (ty : ItemType)
     (ht : ∃ c ∈ t, c ∉ outPunct)
     (hty : ty ≠ .string ∧ ty ≠ .uri ∧ ty ≠ .hash ∧ ty ≠ .s ∧ ty ≠ .function) (isObj : Bool) :
     outValue (outAppend p [] t isObj ty) = t := by
@@ -616,7 +616,7 @@ theorem outValue_outAppend_text (p : Prefs) (hsp : isBlank p.spacer = true) (t :
   by_cases he : p.spacer.isEmpty = true
   · have : p.spacer = [] := List.isEmpty_iff.mp he
     have sp : (32 : Nat) ∈ Gen.C18.spaceChars := by decide
-    simp [this, outValue, removeLastIfS, isBlank, isSpaceChar, sp]
+    simp [this, outValue, removeLastIfS, isCssBlank, isCssSpace]
   · simp only [he, Bool.false_eq_true, Bool.false_and, if_false]
     simp [outValue, removeLastIfS, hsp]
 
@@ -625,7 +625,7 @@ theorem digit_notin_punct {c : Nat} (h : isDigit c = true) : c ∉ outPunct := b
   have : ∀ x ∈ outPunct, isDigit x = false := by decide
   rw [this c hc] at h; cases h
 
-theorem outValue_outAppend_num (p : Prefs) (hsp : isBlank p.spacer = true) (t : Cps) (typ : NumType)
+theorem outValue_outAppend_num (p : Prefs) (hsp : isCssBlank p.spacer = true) (t : Cps) (typ : NumType)
     (ht : ∃ c ∈ t, isDigit c = true) :
     outValue (outAppend p [] t false typ.toItem) = t := by
   obtain ⟨c, hc, hd⟩ := ht
@@ -832,7 +832,7 @@ theorem Lit.text_has_digit {l : Lit} (h : l.Wf) : ∃ c ∈ l.text, isDigit c = 
     | cons d t => exact ⟨d, by simp [Lit.text, hf, fracText, hff], hd d (by simp [hff])⟩
 
 /-- `DimensionValue(text).cssText` is the canonical literal, for every preference record whose spacer is blank -/
-theorem roundTrip_canon {l : Lit} (h : l.Wf) (p : Prefs) (typ : NumType) (hsp : isBlank p.spacer = true)
+theorem roundTrip_canon {l : Lit} (h : l.Wf) (p : Prefs) (typ : NumType) (hsp : isCssBlank p.spacer = true)
     (h6 : (l.fp.getD []).length ≤ 6) (hov : l.tooLarge = false) :
     roundTrip p typ l.text = .ok (canonLit p.omitLeadingZero l).text := by
   unfold roundTrip fmtNum
